@@ -8,6 +8,7 @@ package main
 import (
 	"fmt"
 	"sort"
+	"strings"
 
 	"verif/harness/internal/eng"
 	"verif/harness/internal/hx"
@@ -50,25 +51,26 @@ func expectedRuns(src []eng.Hook, ev string) []eng.Hook {
 	return out
 }
 
-// withDeclared: Helm's hook list (order, kind, name, events, weight as Helm parsed and stored them) with the
-// delete policies the CHART declared (matched by key and occurrence), so that what the oracle expects does not
-// depend on how Helm parsed the helm.sh/hook-delete-policy annotation
+// withDeclared: Helm's hook list (order, kind, name as Helm parsed and stored them) with what the CHART declares
+// (matched document by document: matchDeclared; read by the oracle's own parser: c12Sem): the delete policies,
+// the weight when the annotation is absent or a decimal integer, the events when every name is a hook event - so that
+// what the oracle expects does not depend on how Helm parsed the helm.sh/hook* annotations.  Where the documentation
+// defines nothing (a weight that is no decimal integer, an unknown event name) Helm's reading is kept.
 func withDeclared(src, declared []eng.Hook) []eng.Hook {
 	out := make([]eng.Hook, len(src))
-	seen := map[string]int{}
+	m := matchDeclared(src, declared)
 	for i, h := range src {
 		out[i] = h
-		n := seen[h.Res.Key()]
-		seen[h.Res.Key()] = n + 1
-		k := 0
-		for _, d := range declared {
-			if d.Res.Key() == h.Res.Key() {
-				if k == n {
-					out[i].Policies = d.Policies
-					break
-				}
-				k++
-			}
+		if m[i] < 0 {
+			continue
+		}
+		s := c12Sem(declared[m[i]])
+		out[i].Policies = s.Policies
+		if s.WeightKnown {
+			out[i].Weight = s.Weight
+		}
+		if s.EventsKnown {
+			out[i].Events = s.Events
 		}
 	}
 	return out
@@ -296,8 +298,33 @@ func c12OracleStep(i int, op *eng.Op, so eng.StepObs, reqs []sim.Req, prev []eng
 				add("C12:hook-in-manifest", "the rendered manifest contains the hook resource "+r.Key())
 			}
 		}
-		if len(so.RHooks) != len(op.Hooks) {
-			add("C12:hook-in-manifest", fmt.Sprintf("the chart has %d hook documents, the release %d hooks", len(op.Hooks), len(so.RHooks)))
+		// every declared hook document (whose events are all hook events) is a hook of the release, and nothing else is
+		md := matchDeclared(so.RHooks, op.Hooks)
+		got := map[int]bool{}
+		for k, d := range md {
+			if d < 0 {
+				add("C12:hook-in-manifest", fmt.Sprintf("the release has a hook %s that no hook document of the chart declares (%d documents, %d hooks)", so.RHooks[k].Res.Key(), len(op.Hooks), len(so.RHooks)))
+			} else {
+				got[d] = true
+			}
+		}
+		for k, d := range op.Hooks {
+			if !got[k] && c12Sem(d).EventsKnown {
+				add("C12:hook-in-manifest", fmt.Sprintf("the chart has %d hook documents, the release %d hooks: %s is missing", len(op.Hooks), len(so.RHooks), d.Res.Key()))
+			}
+		}
+		// the weight and the events Helm parsed are the ones the annotations spell (decimal integer; known event names)
+		for k, d := range md {
+			if d < 0 {
+				continue
+			}
+			s, hp := c12Sem(op.Hooks[d]), so.RHooks[k]
+			if s.WeightKnown && hp.Weight != s.Weight {
+				add("C12:hook-weight-misread", fmt.Sprintf("hook %s: weight annotation %q is the decimal integer %d, Helm has weight %d", hp.Res.Key(), op.Hooks[d].Res.Fields[fWeight], s.Weight, hp.Weight))
+			}
+			if s.EventsKnown && strings.Join(s.Events, ",") != strings.Join(hp.Events, ",") {
+				add("C12:hook-events-misread", fmt.Sprintf("hook %s declares events %v, Helm has %v", hp.Res.Key(), s.Events, hp.Events))
+			}
 		}
 	}
 	// the delete policies Helm parsed / stored are the ones the chart declares (an executed hook without
